@@ -42,6 +42,15 @@ func (v pval) isContainer() bool { return !v.err && v.node != nil }
 type pev struct {
 	root *tn
 	res  map[string]string
+	// an environment (Env option): a second tree, looked up when the
+	// configuration does not have the name. A reference written in the
+	// environment is looked up in the environment (only), and is another
+	// reference than one of the same name written in the configuration.
+	env      *tn
+	envNodes map[*tn]bool
+	org      byte // where the setting being evaluated is written: 0 configuration, 'e' environment
+	fromEnv  int  // names of the configuration answered by the environment
+	envRefs  int  // references written in the environment evaluated
 	// trace
 	steps     int
 	tooBig    bool
@@ -86,15 +95,35 @@ func childOf(n *tn, seg string) *tn {
 // passes (with st under evaluation). The setting found is NOT evaluated.
 // final: the failure arose when the last-but-one element was evaluated.
 func (p *pev) walk(path string, st []string) (n *tn, fail *pval, final bool) {
+	n, fail, final, _ = p.walkKeep(path, st, false)
+	return
+}
+
+// walkKeep: with keep, the references evaluated for the elements of the path
+// stay under evaluation (returned stack): the walk of a struct tag with
+// several elements, which stands for nested struct members - what is found is
+// going to be unpacked below these references.
+func (p *pev) walkKeep(path string, st []string, keep bool) (n *tn, fail *pval, final bool, out []string) {
+	return p.walkFrom(p.root, path, st, keep)
+}
+
+func (p *pev) key(name string) string {
+	if p.org == 'e' {
+		return "env:" + name
+	}
+	return name
+}
+
+func (p *pev) walkFrom(root *tn, path string, st []string, keep bool) (n *tn, fail *pval, final bool, out []string) {
 	segs := strings.Split(path, ".")
-	cur := p.root
+	cur := root
 	for i, seg := range segs {
 		last := i == len(segs)-1
 		switch cur.kind {
 		case 'o', 'l':
 		case 'v':
 			f := perr("type")
-			return nil, &f, last
+			return nil, &f, last, st
 		default: // reference-valued (or text): evaluate to find the container
 			p.viaRef++
 			v := p.evalNode(cur, st)
@@ -106,22 +135,25 @@ func (p *pev) walk(path string, st []string) (n *tn, fail *pval, final bool) {
 				if !v.cyclic {
 					v = perr("type")
 				}
-				return nil, &v, last
+				return nil, &v, last, st
 			}
 			if v.node == nil {
 				f := perr("type")
-				return nil, &f, last
+				return nil, &f, last, st
 			}
 			cur = v.node
+			if keep {
+				st = v.st
+			}
 		}
 		next := childOf(cur, seg)
 		if next == nil {
 			f := perr("missing")
-			return nil, &f, last
+			return nil, &f, last, st
 		}
 		cur = next
 	}
-	return cur, nil, false
+	return cur, nil, false, st
 }
 
 func (p *pev) fromResolver(name string) (pval, bool) {
@@ -134,20 +166,50 @@ func (p *pev) fromResolver(name string) (pval, bool) {
 	return pval{}, false
 }
 
+// lookup finds the setting ${name} stands for, written where p.org says: in
+// that tree first, then (from the configuration) in the environment.
+func (p *pev) lookup(name string, st []string) (n *tn, fail *pval, final bool) {
+	root := p.root
+	if p.org == 'e' {
+		root = p.env
+	}
+	n, fail, final, _ = p.walkFrom(root, name, st, false)
+	if fail != nil && p.env != nil && p.org != 'e' {
+		n2, fail2, _, _ := p.walkFrom(p.env, name, st, false)
+		switch {
+		case fail2 == nil:
+			if fail.cyclic {
+				// a cyclic path in the configuration, but the environment
+				// knows the name: who wins is not pinned down
+				p.ambiguous = true
+			}
+			p.fromEnv++
+			return n2, nil, false
+		case fail2.cyclic && !fail.cyclic:
+			return nil, fail2, false
+		}
+	}
+	return n, fail, final
+}
+
 // evalRef: ${name} in value context.
 func (p *pev) evalRef(name string, st []string) pval {
 	if !p.step() {
 		return perr("budget")
 	}
-	if onStackC(st, name) {
+	key := p.key(name)
+	if p.org == 'e' {
+		p.envRefs++
+	}
+	if onStackC(st, key) {
 		p.reentry = true
 		if v, ok := p.fromResolver(name); ok {
 			return v
 		}
 		return perr("cyclic")
 	}
-	st2 := push(st, name)
-	n, fail, final := p.walk(name, st2)
+	st2 := push(st, key)
+	n, fail, final := p.lookup(name, st2)
 	if fail != nil {
 		if fail.cyclic && final {
 			p.finalCyc++
@@ -175,6 +237,12 @@ func (p *pev) evalRef(name string, st []string) pval {
 
 // evalNode: the value of the setting n with st under evaluation.
 func (p *pev) evalNode(n *tn, st []string) pval {
+	saved := p.org
+	p.org = 0
+	if p.envNodes[n] {
+		p.org = 'e'
+	}
+	defer func() { p.org = saved }()
 	switch n.kind {
 	case 'o', 'l':
 		return pval{node: n, st: st}
@@ -214,12 +282,13 @@ func (p *pev) exists(name string, st []string) bool {
 	if !p.step() {
 		return false
 	}
-	if onStackC(st, name) {
+	key := p.key(name)
+	if onStackC(st, key) {
 		p.reentry = true
 		v, ok := p.fromResolver(name)
 		return ok && !v.err
 	}
-	_, fail, _ := p.walk(name, push(st, name))
+	_, fail, _ := p.lookup(name, push(st, key))
 	if fail == nil {
 		return true
 	}
